@@ -242,7 +242,11 @@ def resolve( path, attribute=False ):
                       and 'attribute' not in term )     #     and the term didn't contain a supplied one
              )
             ):
-            break # All desired terms specified; done! (ie. ignore subsequent 'element')
+            # All desired terms specified; done! (ie. ignore subsequent 'element').  However, a
+            # further symbolic term (eg. "Tag.nonexistent") does not name a known Tag.
+            assert 'symbolic' not in term, \
+                "Unrecognized symbolic name %r found in path %r" % ( term['symbolic'], path['segment'] )
+            break
         working			= dict( term )
         while working:
             # Each term is something like {'class':5}, {'instance':1}, or (from symbol table):
